@@ -178,6 +178,7 @@ pub fn replay(case: &Case) -> Result<Verdict, String> {
     let n = case.usize("n")?;
     Ok(match case.get("kind")? {
         "op" => check_op(n, &parse_key(case.get("a")?)?, &parse_key(case.get("b")?)?, case.get("op")?).map(|_| ()),
+        "op32" => check_op32(&parse_key(case.get("a")?)?, &parse_key(case.get("b")?)?, case.get("op")?),
         "fromlut" => check_from_lut(n, &TT::from_words(n, &case.words("t")?).ok_or("t malformed")?),
         "consts" => check_consts(n),
         "closure" => {
@@ -469,6 +470,130 @@ fn reach_large(run: &Run, n: usize) {
     });
 }
 
+/// 32-variable Sops (the only size at which `from_cubes` accepts the canonical zero cube):
+/// operands built from {zero cube, one, x0, !x0, x31, x0x31}; the function is decided on the
+/// probe variables {0, 1, 30, 31} x two backgrounds (the operands depend on x0 and x31 only).
+fn check_op32(a: &Key, b: &Key, op: &str) -> Verdict {
+    let probes: std::collections::BTreeSet<usize> = [0usize, 1, 30, 31].into_iter().collect();
+    let points: Vec<u64> = [0u64, 0xffff_ffff].iter().flat_map(|bg| crate::model::cube::assignments(&probes, *bg)).collect();
+    let val = |k: &Key, m: u64| k.iter().any(|(p, q)| CubeM::from_masks(*p, *q).value(m));
+    let r = guarded(|| {
+        let sa = sop_of(32, a);
+        let sb = sop_of(32, b);
+        let (res, want): (Sop, Box<dyn Fn(u64) -> bool>) = match op {
+            "and" => (&sa & &sb, Box::new(|m| val(a, m) && val(b, m))),
+            "or" => (&sa | &sb, Box::new(|m| val(a, m) || val(b, m))),
+            _ => (!&sa, Box::new(|m| !val(a, m))),
+        };
+        for m in &points {
+            if res.value(*m as usize) != want(*m) {
+                return fail(format!("{} on 32-variable operands: value({:#x}) = {}", op, m, want(*m)), format!("{} (value {})", res, res.value(*m as usize)));
+            }
+        }
+        let ms: Vec<CubeM> = res.cubes().iter().map(abs_cube).collect();
+        for (i, c) in ms.iter().enumerate() {
+            if c.contradictory() || res.cubes()[i].is_zero() {
+                return fail(format!("{}: no contradictory cube in the result", op), format!("{}", res));
+            }
+            for (j, d) in ms.iter().enumerate() {
+                if i != j && (c == d || sem_implies(c, d)) {
+                    return fail(format!("{}: no duplicate and no cube implying another", op), format!("{}", res));
+                }
+            }
+        }
+        let zero = points.iter().all(|m| !want(*m));
+        if res.is_zero() != zero {
+            return fail(format!("{}: is_zero = {} (exactly for the constant-zero function)", op, zero), format!("{} on {}", res.is_zero(), res));
+        }
+        if res.is_one() && !points.iter().all(|m| want(*m)) {
+            return fail(format!("{}: is_one only for constant one", op), format!("{}", res));
+        }
+        Ok(())
+    });
+    match r {
+        Ok(v) => v,
+        Err(p) => fail(format!("{} on 32-variable operands returns", op), p),
+    }
+}
+
+fn wide32(run: &Run) {
+    let z = (!0u32, !0u32);
+    let cubes: Vec<(u32, u32)> = vec![z, (0, 0), (1, 0), (0, 1), (1 << 31, 0), (1 | (1 << 31), 0), (0, 1 << 31)];
+    let mut lists: Vec<Key> = vec![vec![]];
+    for a in &cubes {
+        lists.push(vec![*a]);
+        for b in &cubes {
+            lists.push(vec![*a, *b]);
+        }
+    }
+    let m = lists.len() as u64;
+    run.section("WIDE n=32: operands over {zero cube, 1, x0, !x0, x31, x0x31, !x31} (lists of <= 2), all ordered pairs x {&, |} and !", false, "the only size where from_cubes accepts the canonical zero cube; functions decided on probe variables x two backgrounds", m * m, 64, |r, l| {
+        for idx in r {
+            let (a, b) = (&lists[(idx / m) as usize], &lists[(idx % m) as usize]);
+            l.states += 1;
+            let ops: Vec<&str> = if idx % m == 0 { vec!["and", "or", "not"] } else { vec!["and", "or"] };
+            for op in ops {
+                l.transitions += 1;
+                l.validated += 1;
+                match check_op32(a, b, op) {
+                    Ok(()) => {
+                        l.nontrivial += 1;
+                        l.digest ^= crate::engine::mix3(idx, op.len() as u64, 32);
+                    }
+                    Err(v) => l.violation(format!("32|{}|{}|{}", op, show_key(a), show_key(b)), &format!("C14/{}/wide32", op), format!("kind=op32;n=32;op={};a={};b={}", op, show_key(a), show_key(b)), v.0, v.1),
+                }
+            }
+        }
+    });
+}
+
+/// Large covers: minterm covers of 6- and 7-variable functions OR-ed / AND-ed together, and a
+/// long OR accumulation of single cubes (forms whose behaviour could change with their size).
+fn large_covers(run: &Run) {
+    run.section_seq("LARGE covers n=6,7: minterm covers (up to 64 cubes) | and & each other; OR-accumulation of 60 cubes", false, "pairs of minterm covers of alphabet functions with at most 64 minterms; accumulation checked after every step", |l| {
+        for n in [6usize, 7] {
+            let full = (1u32 << n) - 1;
+            let fam: Vec<TT> = crate::model::alpha::family_capped(n, run.seed, 1, 4000).into_iter().filter(|t| { let c = t.count_ones(); c >= 2 && c <= 64 }).step_by(37).take(14).collect();
+            let keys: Vec<Key> = fam.iter().map(|t| (0..nbits(n)).filter(|m| t.get(*m)).map(|m| (m as u32, !(m as u32) & full)).collect()).collect();
+            for (i, a) in keys.iter().enumerate() {
+                for b in keys.iter().skip(i) {
+                    for op in ["or", "and"] {
+                        l.states += 1;
+                        l.transitions += 1;
+                        l.validated += 1;
+                        match check_op(n, a, b, op) {
+                            Ok(_) => l.nontrivial += 1,
+                            Err(v) => report_op(l, n, a, b, op, v),
+                        }
+                    }
+                }
+            }
+            // accumulation: acc = acc | cube_k, cubes repeat non-adjacently
+            let cubes = all_cubes(3).into_iter().map(|(p, q)| (p << (n - 3), q << (n - 3))).chain(all_cubes(2).into_iter()).collect::<Vec<_>>();
+            let mut acc: Key = vec![];
+            for k in 0..60usize {
+                let c = cubes[(k * 7 + 3) % cubes.len()];
+                if c == (0, 0) {
+                    continue;
+                }
+                l.states += 1;
+                l.transitions += 1;
+                l.validated += 1;
+                match check_op(n, &acc, &vec![c], "or") {
+                    Ok(res) => {
+                        acc = res;
+                        l.nontrivial += 1;
+                    }
+                    Err(v) => {
+                        report_op(l, n, &acc, &vec![c], "or", v);
+                        break;
+                    }
+                }
+            }
+        }
+    });
+}
+
 pub fn run(run: &Run) {
     run.set_rule("state = a Sop identified by its cube list; transition = & | (4 forms) and ! (2 forms) with operands from the generators / the visited set / redundant lists; non-trivial = the result differs from the first operand");
     run.assume("reference model: a cover denotes the OR of its cubes, each evaluated by the literal-set model; implication between cubes decided by enumerating assignments (model::cube)");
@@ -524,4 +649,6 @@ pub fn run(run: &Run) {
     for n in 4..=10usize {
         reach_large(run, n);
     }
+    large_covers(run);
+    wide32(run);
 }
